@@ -162,9 +162,11 @@ func deinterleave(s []int, nc int) [][]int {
 func (c13) Build(tier string, seed uint64) []any {
 	var cs []any
 	th := tier == "thorough"
-	per := 2
+	// every content class in every (P, components, selector) cell, also in the quick tier:
+	// the double modulo-2^16 wrap needs predictor 4 at P >= 15 on alternating extremes
+	per := 12
 	if th {
-		per = 150
+		per = 156
 	}
 	classes := []string{"noise", "altext", "bands", "twolevel", "ramp", "checker", "lowent", "runs", "smooth", "impulses", "edges", "const"}
 	sizes := []int{1, 2, 3, 4, 5, 7, 8, 9, 16, 17, 31, 33}
